@@ -141,16 +141,16 @@ func FlagsOf(b *hatypes.Backend) BackFlags {
 type BackObs struct {
 	ID       string    `json:"id"`
 	OldFlags BackFlags `json:"old_flags"`
-	New      bool      `json:"new,omitempty"` // no old object with this id
-	Shrunk  bool     `json:"shrunk,omitempty"` // Shrink kept the old object
-	Old     []EpDump `json:"old,omitempty"`
-	Cur     []EpDump `json:"cur"`
-	OldCfg  []string `json:"-"`
-	CurCfg  []string `json:"-"`
-	CfgDiff []string `json:"cfg_diff,omitempty"` // names of differing Backend fields (all of them)
-	Flags   BackFlags
-	Res     []EpDump               `json:"res"` // endpoints of the backend kept in Items() after the update
-	Exch    []fakehaproxy.Exchange `json:"exch,omitempty"`
+	New      bool      `json:"new,omitempty"`    // no old object with this id
+	Shrunk   bool      `json:"shrunk,omitempty"` // Shrink kept the old object
+	Old      []EpDump  `json:"old,omitempty"`
+	Cur      []EpDump  `json:"cur"`
+	OldCfg   []string  `json:"-"`
+	CurCfg   []string  `json:"-"`
+	CfgDiff  []string  `json:"cfg_diff,omitempty"` // names of differing Backend fields (all of them)
+	Flags    BackFlags
+	Res      []EpDump               `json:"res"` // endpoints of the backend kept in Items() after the update
+	Exch     []fakehaproxy.Exchange `json:"exch,omitempty"`
 }
 
 // HostObs is what happened to one re-created host.
@@ -194,12 +194,12 @@ type StepObs struct {
 	Running  *fakehaproxy.State   `json:"-"`
 	Before   *fakehaproxy.State   `json:"-"` // running process before the step
 	// BeforeBacks / BeforeFlags: every backend of Items() before the step
-	BeforeBacks map[string][]EpDump  `json:"-"`
-	BeforeFlags map[string]BackFlags `json:"-"`
-	Written     bool                 `json:"written"` // some *.cfg was rewritten
-	First       bool                 `json:"first,omitempty"`
-	HostRemoved bool                 `json:"host_removed,omitempty"`
-	BackRemoved bool                 `json:"back_removed,omitempty"`
+	BeforeBacks map[string][]EpDump               `json:"-"`
+	BeforeFlags map[string]BackFlags              `json:"-"`
+	Written     bool                              `json:"written"` // some *.cfg was rewritten
+	First       bool                              `json:"first,omitempty"`
+	HostRemoved bool                              `json:"host_removed,omitempty"`
+	BackRemoved bool                              `json:"back_removed,omitempty"`
 	CertExch    map[string][]fakehaproxy.Exchange `json:"-"`
 }
 
@@ -215,20 +215,20 @@ func (nullLogger) Fatal(msg string, args ...interface{})        {}
 
 type metrics struct{ last string }
 
-func (m *metrics) HAProxyShowInfoResponseTime(time.Duration)                  {}
-func (m *metrics) HAProxySetServerResponseTime(time.Duration)                 {}
-func (m *metrics) HAProxySetSSLCertResponseTime(time.Duration)                {}
-func (m *metrics) ControllerProcTime(string, time.Duration)                   {}
-func (m *metrics) AddIdleFactor(int)                                          {}
-func (m *metrics) IncUpdateNoop()                                             { m.last += "noop " }
-func (m *metrics) IncUpdateDynamic()                                          { m.last += "dynamic " }
-func (m *metrics) IncUpdateFull()                                             { m.last += "full " }
-func (m *metrics) UpdateSuccessful(bool)                                      {}
-func (m *metrics) SetCertExpireDate(domain, cn string, notAfter *time.Time)   {}
-func (m *metrics) ClearCertExpire()                                           {}
-func (m *metrics) IncCertSigningMissing(domains string, success bool)         {}
-func (m *metrics) IncCertSigningExpiring(domains string, success bool)        {}
-func (m *metrics) IncCertSigningOutdated(domains string, success bool)        {}
+func (m *metrics) HAProxyShowInfoResponseTime(time.Duration)                {}
+func (m *metrics) HAProxySetServerResponseTime(time.Duration)               {}
+func (m *metrics) HAProxySetSSLCertResponseTime(time.Duration)              {}
+func (m *metrics) ControllerProcTime(string, time.Duration)                 {}
+func (m *metrics) AddIdleFactor(int)                                        {}
+func (m *metrics) IncUpdateNoop()                                           { m.last += "noop " }
+func (m *metrics) IncUpdateDynamic()                                        { m.last += "dynamic " }
+func (m *metrics) IncUpdateFull()                                           { m.last += "full " }
+func (m *metrics) UpdateSuccessful(bool)                                    {}
+func (m *metrics) SetCertExpireDate(domain, cn string, notAfter *time.Time) {}
+func (m *metrics) ClearCertExpire()                                         {}
+func (m *metrics) IncCertSigningMissing(domains string, success bool)       {}
+func (m *metrics) IncCertSigningExpiring(domains string, success bool)      {}
+func (m *metrics) IncCertSigningOutdated(domains string, success bool)      {}
 
 // World is one running instance + fake.
 type World struct {
@@ -270,14 +270,14 @@ func NewWorld(dir string, in *Input) (*World, error) {
 	}
 	w.socks = socks
 	w.Inst = haproxy.CreateInstance(nullLogger{}, haproxy.InstanceOptions{
-		RootFSPrefix:   "/repo/rootfs",
-		HAProxyCfgDir:  dir,
-		HAProxyMapsDir: filepath.Join(dir, "maps"),
-		BackendShards:  in.Shards,
-		IsExternal:     true,
-		MasterSocket:   master,
-		AdminSocket:    admin,
-		Metrics:        w.met,
+		RootFSPrefix:    "/repo/rootfs",
+		HAProxyCfgDir:   dir,
+		HAProxyMapsDir:  filepath.Join(dir, "maps"),
+		BackendShards:   in.Shards,
+		IsExternal:      true,
+		MasterSocket:    master,
+		AdminSocket:     admin,
+		Metrics:         w.met,
 		SortEndpointsBy: in.SortBy,
 	})
 	if err := w.Inst.ParseTemplates(); err != nil {
